@@ -1,7 +1,10 @@
 CONSTANTS
   MaxOps = 40
   OracleN = 0
+  Starts = {"k4"}
+  GlueK5 = FALSE
+  Randomised = TRUE
 INIT Init
 NEXT Next
-INVARIANT EmitFull
+INVARIANT EmitAll
 CHECK_DEADLOCK FALSE
